@@ -47,14 +47,15 @@ type xfer struct {
 }
 
 type mco struct {
-	status string // suspended, running, normal, dead
-	fn     *funcDef
-	in     chan xfer
-	out    chan xfer
-	start  bool
-	prot   []*protFrame // protected-call boundaries inside this coroutine
-	cerr   *mval        // error the coroutine died with
-	cstack []mval       // every pending to-be-closed value of the coroutine, innermost last
+	status  string // suspended, running, normal, dead
+	fn      *funcDef
+	in      chan xfer
+	out     chan xfer
+	start   bool
+	prot    []*protFrame // protected-call boundaries inside this coroutine
+	cerr    *mval        // error the coroutine died with
+	cstack  []mval       // every pending to-be-closed value of the coroutine, innermost last
+	closing bool         // coroutine.close is emptying cstack: the handlers cannot yield
 }
 
 type protFrame struct {
@@ -280,6 +281,12 @@ func (m *interp) execBlock(b []*stmt, env *menv) (c ctl) {
 
 func (m *interp) callClose(v mval, errv mval) {
 	t := v.ref.(*mtable)
+	if t.stripped {
+		// no handler any more: that is an error raised in place of the handler, the other pending
+		// values are still closed
+		m.feat["close-handler-lost"] = true
+		m.raise(strv("sim:?: ERR"))
+	}
 	m.emit("close", []mval{intv(t.id), errv})
 	m.feat["close-handler"] = true
 	switch t.closeMode {
@@ -387,6 +394,10 @@ func (m *interp) exec(s *stmt, env *menv, pending *[]mval) ctl {
 		return ctl{k: cReturn, vals: m.evalList(s.exps, env, s.line)}
 	case sCallStmt:
 		m.evalMulti(s.exps[0], env, s.line)
+	case sStrip:
+		if p := env.lookup(s.name); p != nil && p.k == vTbl && p.ref != nil {
+			p.ref.(*mtable).stripped = true
+		}
 	case sError:
 		v := m.eval1(s.exps[0], env, s.line)
 		if v.k == vStr && s.level == 1 {
@@ -633,7 +644,9 @@ func (m *interp) builtin(name string, args []mval, line int) []mval {
 		}
 		return []mval{boolv(false), errv}
 	case "coroutine.yield":
-		if m.cur == m.mainCo {
+		if m.cur == m.mainCo || m.cur.closing {
+			// (a coroutine that is being closed only runs its __close handlers, which cannot yield:
+			// the closer gets control back when every pending value has been closed, not before)
 			m.raise(m.lineErr(line, "ERR"))
 		}
 		return m.yield(args)
@@ -674,6 +687,7 @@ func (m *interp) builtin(name string, args []mval, line int) []mval {
 		prev := m.cur
 		prev.status = "normal"
 		co.status = "running"
+		co.closing = true
 		m.cur = co
 		co.in <- xfer{kind: "close"}
 		x := <-co.out
